@@ -51,7 +51,8 @@ def _listing_case(draw):
         extra.append({"k": k, "name": draw(label), "host": draw(st.sampled_from(["other.example", "gopher.floodgap.com", "h-2.example.org"])),
                       "port": draw(st.sampled_from([70, 7070, 105, 1])), "type": draw(st.sampled_from(["0", "1", "9", "h", "I"])),
                       "sel": draw(st.sampled_from(["/", "/x", "/a b", "/d/e.txt", "/caf\xc3\xa9", "/q?x=1", "/50%25"])),
-                      "url": draw(st.sampled_from(["http://www.example.org/", "https://example.org/a/b?c=d", "ftp://ftp.example.org/pub", "mailto://x@example.org"])),
+                      "url": draw(st.sampled_from(["http://www.example.org/", "https://example.org/a/b?c=d", "ftp://ftp.example.org/pub", "mailto://x@example.org",
+                                                     "mailto:x@example.org", "news:comp.infosystems.gopher", "tel:+15551234"])),
                       "text": draw(info_text)})
     abstracts = draw(st.lists(st.tuples(st.integers(0, n - 1), st.lists(info_text.filter(bool), min_size=1, max_size=2)), max_size=2))
     return {"mode": "listing", "files": [list(f) for f in files], "style": style, "extra": extra,
